@@ -90,7 +90,8 @@ def recorded(chk, n, aspects=None):
     tr = os.path.join(core.scratch(), "match-trace.ndjson")
     s = core.run_harness(["matchrec", "record", tr, n], env={"VERIF_SEED": chk.seed})
     hdr = core.trace_line(tr, 1)
-    pd = os.path.join(core.scratch(), "PoolDef.tla")
+    os.makedirs(os.path.join(core.scratch(), "tracepool"), exist_ok=True)
+    pd = os.path.join(core.scratch(), "tracepool", "PoolDef.tla")
     open(pd, "w").write(P.pooldef(hdr["pool"]))
     const = dict(DEV, MaxLen=1, MaxTable=1, MethodSets=core.SetOfSets([["GET"]]), ReqMethods={"GET"})
     c = core.cfg(init="TraceInit", next="TraceNext", constants=const, postcondition="Post")
